@@ -14,14 +14,14 @@ contract(Q + "start",
          ensures=[("redirected", "implies(self.enabled, sys.stdout is self.cap_stdout and self.text == '' and self.started)"),
                   ("disabled-noop", "implies(not self.enabled, sys.stdout is old(sys.stdout) and self.text == old(self.text) "
                                     "and self.started == old(self.started))")],
-         props=["C12", "C01"], opts={"native": False})
+         props=["C12", "C01"], opts={"native": False, "global_alias": {"sys.stdout": [("self.enabled", "self.cap_stdout"), ("not self.enabled", "old(sys.stdout)")]}})
 
 contract(Q + "stop",
          params={"self": "CaptureStdout"}, globals=G,
          modifies=["self.started", "sys.stdout"],
          ensures=[("restored", "implies(self.enabled, sys.stdout is self.orig_stdout and not self.started)"),
                   ("disabled-noop", "implies(not self.enabled, sys.stdout is old(sys.stdout) and self.started == old(self.started))")],
-         props=["C12"], opts={"native": False},
+         props=["C12"], opts={"native": False, "global_alias": {"sys.stdout": [("self.enabled", "self.orig_stdout"), ("not self.enabled", "old(sys.stdout)")]}},
          sentinel=("keeps-capture-stream", "sys.stdout is self.cap_stdout"))
 
 contract(Q + "log_part",
@@ -39,7 +39,7 @@ contract(Q + "__enter__",
          ensures=[("self", "result is self"),
                   ("redirected", "implies(self.enabled, sys.stdout is self.cap_stdout and self.text == '')"),
                   ("disabled-noop", "implies(not self.enabled, sys.stdout is old(sys.stdout) and self.text == old(self.text))")],
-         props=["C12", "C01"], opts={"native": False})
+         props=["C12", "C01"], opts={"native": False, "result_alias": {None: "self"}, "global_alias": {"sys.stdout": [("self.enabled", "self.cap_stdout"), ("not self.enabled", "old(sys.stdout)")]}})
 
 contract(Q + "__exit__",
          params={"self": "CaptureStdout", "type_": "Optional[Val]", "value": "Optional[Val]", "trace": "Optional[Val]"},
@@ -51,5 +51,22 @@ contract(Q + "__exit__",
                   ("text", "implies(self.enabled, self.text == S.substr(self.cap_stdout.buf, old(self._pos), "
                            "len(self.cap_stdout.buf) - old(self._pos)) and self._pos == len(self.cap_stdout.buf))"),
                   ("disabled-noop", "implies(not self.enabled, sys.stdout is old(sys.stdout) and self.text == old(self.text))")],
-         props=["C12", "C01"], opts={"native": False},
+         props=["C12", "C01"], opts={"native": False, "global_alias": {"sys.stdout": [("self.enabled", "self.orig_stdout"), ("not self.enabled", "old(sys.stdout)")]}},
          sentinel=("leaves-capture-installed", "implies(self.enabled, sys.stdout is self.cap_stdout)"))
+
+
+contract("xdoctest.utils.util_stream:TeeStringIO.__init__",
+         params={"self": "TeeStringIO", "redirect": "Optional[Val]"}, trusted=True, log=False,
+         modifies=["self.buf", "self.pos"],
+         ensures=[("empty", "self.buf == '' and self.pos == 0")],
+         note="T: io.StringIO() starts empty at position 0")
+
+contract(Q + "__init__",
+         params={"self": "CaptureStdout", "suppress": "bool", "enabled": "bool"}, globals=G, log=False,
+         modifies=["self.enabled", "self.suppress", "self.orig_stdout", "self.cap_stdout", "self.text", "self._pos",
+                   "self.parts", "self.started"],
+         ensures=[("remembers-current-stdout", "self.orig_stdout is sys.stdout"),
+                  ("flags", "self.enabled == enabled and self.suppress == suppress and not self.started"),
+                  ("nothing-logged", "self._pos == 0 and self.cap_stdout.buf == '' and self.text is None"),
+                  ("stdout-untouched", "sys.stdout is old(sys.stdout)")],
+         props=["C12", "C01"], opts={"native": False})
